@@ -6,7 +6,7 @@
    table read from empty CSV text. *)
 From BBF Require Import Base.Prelude Base.Names Base.Bits Spec.Sem
      Model.Expr Model.Table Model.LibBdd Model.Bdd Model.Lexer Model.Parser Model.Display Model.Render Model.Csv Model.Prog
-     Proofs.DdProofs Proofs.BddProofs Proofs.BddOps Proofs.ProgProofs.
+     Proofs.DdProofs Proofs.BddProofs Proofs.BddOps Proofs.EnumProofs Proofs.ProgProofs.
 
 Theorem C15_step : forall p i x, Inv p -> allowed p i -> exec p i = Ok x -> Rel x.
 Proof. exact exec_sound. Qed.
@@ -40,6 +40,36 @@ Proof.
   rewrite <- (eval_env_of_inner a p Wa), <- (eval_env_of_inner b p Wb), Hi. apply Hs.
 Qed.
 Print Assumptions C15_diagram_determined_by_function.
+
+(* the debug assertions of extend/prune never decide anything: debug and release builds compute the same objects *)
+Theorem C15_profile_independent_restrict : forall b rho, wf_bdd b -> b_restrict true b rho = b_restrict false b rho.
+Proof. exact restrict_profile_independent. Qed.
+Print Assumptions C15_profile_independent_restrict.
+
+Theorem C15_profile_independent_quantifiers : forall b vars, wf_bdd b ->
+  b_exists true b vars = b_exists false b vars /\ b_forall true b vars = b_forall false b vars /\
+  b_derivative true b vars = b_derivative false b vars.
+Proof. exact quantifiers_profile_independent. Qed.
+Print Assumptions C15_profile_independent_quantifiers.
+
+Theorem C15_profile_independent_connectives : forall op a b, wf_bdd a -> wf_bdd b ->
+  b_bit true (dd_apply op) a b = b_bit false (dd_apply op) a b.
+Proof. exact bit_profile_independent. Qed.
+Print Assumptions C15_profile_independent_connectives.
+
+Theorem C15_profile_independent_substitute : forall b m, wf_bdd b -> (forall k g, In (k, g) m -> wf_bdd g) ->
+  b_substitute true b m = b_substitute false b m.
+Proof. exact substitute_profile_independent. Qed.
+Print Assumptions C15_profile_independent_substitute.
+
+(* a well-formed diagram is determined by its inputs and its function (so is every observation of it) *)
+Theorem C15_bdd_determined : forall a b, wf_bdd a -> wf_bdd b -> b_inputs a = b_inputs b -> (forall v, bsem a v = bsem b v) -> a = b.
+Proof. exact bdd_determined. Qed.
+Print Assumptions C15_bdd_determined.
+
+Theorem C15_table_determined : forall a b, wf_table a -> wf_table b -> t_inputs a = t_inputs b -> (forall v, tsem a v = tsem b v) -> a = b.
+Proof. exact table_determined. Qed.
+Print Assumptions C15_table_determined.
 
 Example C15_example :
   let prog := [IExpr (And [Lit [97%N]; Not (Lit [98%N])]); IConv KT 0; IConv KB 0; IRestrict 2 [([97%N], true)]; IQuant QExists 1 [[98%N]]] in
